@@ -13,8 +13,10 @@ RULE = ("A case is a JSON description of a ListGrader tree (leaves: table-driven
         "{expect: {input: [credit, msg]}} table, or SingleListGrader over such a leaf; inner nodes: nested ListGraders "
         "with or without grouping), its answers (1-3 alternative lists; answers as strings, dicts with grade_decimal/"
         "msg, tuples of alternatives, expect tuples), and an input list that is graded in one, several or ALL of its "
-        "permutations. Exhaustive parts: every 2x2 credit matrix over {0,.1,1/3,.5,.7,1} x ordered/unordered x "
-        "partial_credit x both input orders; every 3x3 matrix over {0,.5,1} and every 4x4 over {0,1} (unordered; thorough: also 3x3 over {0,1/3,.7,1}); every pair of 2x2 matrices "
+        "permutations. Exhaustive parts (a matrix is realised by columns = input tokens, so every input order of every "
+        "matrix is included): every 2x2 credit matrix over {0,.1,1/3,.5,.7,1} x ordered/unordered x partial_credit; "
+        "every 3x3 matrix over {0,.5,1} x partial_credit and every 4x4 over {0,1} (unordered; thorough: also 3x3 over "
+        "{0,1/3,.7,1}); every pair of 2x2 matrices "
         "over {0,.5,1} as two alternative answer lists; every equal-size grouping of 4/6/8 inputs (unordered) and every "
         "grouping of 2..5 inputs (2..7 in the thorough tier) into contiguous-numbered groups (ordered, list of "
         "subgraders). Random parts: flat graders n=2..6 (all n! input orders for n<=5, 6 sampled orders for n=6) and "
